@@ -35,6 +35,8 @@ fn stream_line(rng: &mut Rng, n: u32, heavy: bool) -> String {
         fmt_ints(&(0..len).map(|_| { let v = 1 + rng.below(n as usize) as i32; if rng.chance(0.5) { v } else { -v } }).collect::<Vec<_>>())
     };
     let (l3, l4, l5) = (1 + rng.below(3), 1 + rng.below(4), 1 + rng.below(5));
+    // input lines that are no request at all are lines too: each gets its (error) answer in its place
+    if rng.chance(0.04) { return ["", " ", "\t", "count a", "frobnicate 1 2", "count a 1 b"][rng.below(6)].to_string(); }
     match rng.below(if heavy { 9 } else { 6 }) {
         0 => "count".to_string(),
         1 => format!("count a {}", lits(rng, l3)),
@@ -501,7 +503,50 @@ pub fn c17(a: &Args) {
         let _ = full;
         if !found { out.fail("concurrent-enumeration-stream", &f.text(), &what, &format!("{:?}", got.stdout), "answers that are the pages of some sequential order of the requests"); }
     }
-    out.finish("controlled: 2..4 concurrent Ddnnf::enumerate calls on clones (same and different assumption sets), request 0 paused by the hook right after its cursor read while the others are started; pages judged in cursor-write order as a sequential history and the observed read/write events replayed through the Lean lock machine; free-running: `stream -j 2..4` fed 2..6 `enum l k` lines with seeded delays, answers must be the pages of some sequential order");
+    // several cycles on worker clones: requests handed to 2..4 clones in turn (a legal schedule) over three and
+    // more whole cycles must give the pages one model gives for the same requests in the same order; then the
+    // same number of truly concurrent requests adding up to whole cycles: every model equally often
+    TID.with(|t| t.set(u64::MAX));
+    for r in 0..(if a.thorough() { 120 } else { 30 }) {
+        let (f, tt) = pick_model(&mut rng, 4);
+        let Ok(base) = load(&f) else { continue };
+        let count = tt.count() as usize;
+        if count == 0 || count > 64 { continue; }
+        let nclones = 2 + rng.below(3);
+        let mut clones: Vec<Ddnnf> = (0..nclones).map(|_| base.clone()).collect();
+        let Ok(mut single) = load(&f) else { continue };
+        let amount = if r % 2 == 0 { 1 + rng.below(count.min(4)) } else { [1usize, 2, count][rng.below(3)].min(count) };
+        let nreq = (3 * count).div_ceil(amount) + 2;
+        let what = format!("{nreq} x enumerate([], {amount}) handed to {nclones} clones in turn ({count} models)");
+        out.eval(Some(format!("{}|{}", f.text(), what)));
+        out.count("multi_cycle_runs", 1);
+        for i in 0..nreq {
+            let c = &mut clones[i % nclones];
+            let got = guarded(|| c.enumerate(&mut vec![], amount)).unwrap_or(None);
+            let want = single.enumerate(&mut vec![], amount);
+            if got != want { out.fail("enumeration-on-clones", &f.text(), &format!("{what}; request {i}"), &format!("{:?}", got), &format!("{:?}", want)); break; }
+        }
+        // concurrent: amount divides count => `cycles` whole cycles in total, each model handed out `cycles` times
+        if count % amount == 0 {
+            let cycles = 2 + rng.below(2);
+            let total_req = cycles * (count / amount);
+            let fresh = base.clone();
+            let handed: Arc<Mutex<Vec<Vec<i32>>>> = Arc::new(Mutex::new(Vec::new()));
+            let next = Arc::new(std::sync::atomic::AtomicUsize::new(0));
+            let hs: Vec<_> = (0..nclones).map(|_| { let mut d = fresh.clone(); let handed = handed.clone(); let next = next.clone(); std::thread::spawn(move || {
+                while next.fetch_add(1, std::sync::atomic::Ordering::SeqCst) < total_req {
+                    if let Ok(Some(p)) = guarded(|| d.enumerate(&mut vec![], amount)) { handed.lock().unwrap().extend(p); }
+                } }) }).collect();
+            for h in hs { let _ = h.join(); }
+            let mut tally: std::collections::HashMap<Vec<i32>, usize> = std::collections::HashMap::new();
+            for c in handed.lock().unwrap().iter() { *tally.entry(c.clone()).or_default() += 1; }
+            if tally.len() != count || tally.values().any(|&k| k != cycles) {
+                let mut v: Vec<usize> = tally.values().copied().collect(); v.sort();
+                out.fail("concurrent-enumeration-cycles", &f.text(), &format!("{total_req} concurrent enumerate([], {amount}) on {nclones} clones = {cycles} whole cycles"), &format!("{} distinct configurations, multiplicities {:?}", tally.len(), v), &format!("{count} configurations, each {cycles} times"));
+            }
+        }
+    }
+    out.finish("controlled: 2..4 concurrent Ddnnf::enumerate calls on clones (same and different assumption sets), request 0 paused by the hook right after its cursor read while the others are started; pages judged in cursor-write order as a sequential history and the observed read/write events replayed through the Lean lock machine; free-running: `stream -j 2..4` fed 2..6 `enum l k` lines with seeded delays, answers must be the pages of some sequential order; several whole cycles on 2..4 clones: requests in turn vs one model, and concurrent requests adding up to whole cycles (every model equally often)");
 }
 
 fn permute(xs: &mut Vec<usize>, k: usize, f: &mut dyn FnMut(&[usize])) {
